@@ -601,7 +601,7 @@ fn gen_script(rng: &mut Rng, hist: &mut std::collections::BTreeMap<&'static str,
     if n >= 2 && rng.chance(1, 2) {
         let k = (rng.range(2, 5) as usize).min(n);
         let start = rng.below((n - k + 1) as u64) as usize;
-        let width = if rng.chance(1, 2) { 4u32 } else { 8u32 };
+        let width = if k <= 4 && rng.chance(1, 2) { 4u32 } else { 8u32 };
         // k contiguous non-empty ranges of [0, width)
         let mut cuts: Vec<u32> = vec![];
         while cuts.len() < k - 1 { let c = rng.range(1, width as i64 - 1) as u32; if !cuts.contains(&c) { cuts.push(c); } }
